@@ -34,6 +34,15 @@ impl DetectProp for C02 {
                 c.sett.chunk = usize::MAX / 8;
             }
             3 => c.bytes = vec![],
+            6 => {
+                // the largest values the settings' types admit
+                c.sett.steps = *rng.pick(&[usize::MAX, usize::MAX / 2, usize::MAX / 8, usize::MAX / 24, 1usize << 40, 1usize << 62]);
+                c.sett.chunk = *rng.pick(&[0usize, 0, 1, 2, 3, 512, usize::MAX]);
+                if c.bytes.len() > 600 {
+                    c.bytes.truncate(600);
+                }
+                c.tag = format!("extreme-window:{}", c.tag);
+            }
             5 => {
                 // code points at the edges of the block table / planes, in every encoding that carries them
                 let t = unicode_extremes_text(rng);
